@@ -58,7 +58,11 @@ def reg_api(add):
     base = dict(headers=H, conf='base', route='proof', unwind=18, timeout=600,
                 bound_note='all loops run RLC_FP_DIGS (=4) times in the shipped configuration: unwound completely; modulus symbolic')
 
+    LOWS = ['src/low/easy/relic_fp_add_low.c', 'src/low/easy/relic_fp_shift_low.c', UTIL, DVU]    # real bodies of every low-level function a (changed) wrapper could call instead
+
     def fp(f, srcs, decls, call, shapes, replace, note, props=('C02', 'C08'), **kw):
+        srcs = srcs + [s for s in LOWS if s not in srcs]
+        replace = replace + [r for r in ['fp_prime_get'] if r not in replace]
         for sh, mac in shapes:
             add('%s.%s' % (f, sh) if len(shapes) > 1 or sh != 'none' else f, list(props), f, sources=srcs, defines=('VC_XSHAPE=' + mac).split(',') + ['VC_UNIT_FP'], decls=decls, call=call,
                 replace=replace, note=note, ignore=kw.get('ignore', {}).get(sh, ()), expect=kw.get('expect', ('postcondition',)), **dict(base, **kw.get('over', {})))
@@ -97,7 +101,7 @@ def reg_mul(add):
     MUL, SQR = 'src/low/easy/relic_fp_mul_low.c', 'src/low/easy/relic_fp_sqr_low.c'
     NOTE = ('digit product ABSTRACT: RLC_MUL_DIG -> uninterpreted mulhi/mullo with the range fact PROD <= (B-1)^2 assumed inside the macro (as contracts/bn_mul.h); '
             'the contract is the sum of the same terms; ASSUMED: mulhi:mullo is the exact product')
-    base = dict(headers=['c02x_mul.h'], conf='base', route='proof', unwind=18, timeout=600, note=NOTE,
+    base = dict(headers=['c02x_mul.h'], conf='base', route='proof', unwind=18, timeout=600, note=NOTE, flags=os.environ.get('C02X_MUL_FLAGS', '').split(),
                 bound_note='RLC_FP_DIGS = 4: all loops unwound completely')
     D = 'dig_t *c; const dig_t *a; dig_t d;'
     for sh, mac in F2:
